@@ -12,6 +12,7 @@ import (
 
 	"github.com/osteele/liquid/expressions"
 	"github.com/osteele/liquid/render"
+	"github.com/osteele/liquid/verifhook"
 )
 
 // An IterationKeyedMap is a map that yields its keys, instead of (key, value) pairs, when iterated.
@@ -58,6 +59,7 @@ func cycleTag(args string) (func(io.Writer, render.Context) error, error) {
 		cycleMap := loopRec[".cycles"].(map[string]int)
 		group, values := cycle.Group, cycle.Values
 		n := cycleMap[group]
+		verifhook.Yield(verifhook.SiteCycle)
 		cycleMap[group] = n + 1
 		// The parser guarantees that there will be at least one item.
 		_, err = io.WriteString(w, values[n%len(values)])
@@ -120,6 +122,7 @@ func (loop loopRenderer) render(iter iterable, w io.Writer, ctx render.Context) 
 	cycleMap := map[string]int{}
 loop:
 	for i, l := 0, iter.Len(); i < l; i++ {
+		verifhook.Step(verifhook.SiteLoopIter)
 		ctx.Set(loop.Variable, iter.Index(i))
 		ctx.Set(forloopVarName, map[string]any{
 			"first":   i == 0,
